@@ -12,7 +12,8 @@
 //!        (token-A path, 256-bit division with non-zero remainders), L ~ 2^64 with prices MAX-i (token-B path).
 //!  (iii) U256Muldiv: div (both remainder modes), mul, add, sub, comparisons for every pair of 256-bit values whose
 //!        64-bit words come from a boundary alphabet; shifts, add-inverse, down-cast, Display for every single value;
-//!        division by zero must panic "divide by zero" (the in-tree behaviour) rather than return a value.
+//!        division by zero must panic "divide by zero" (the in-tree behaviour) rather than return a value; a panic for a
+//!        non-zero divisor is a violation.
 //!
 //! Oracle on every SUCCESSFUL step (errors and panics of the code under test are counted, not constrained):
 //!   * next_price lies between current and target (inclusive): moves only in the trade direction, never past the target;
@@ -25,9 +26,10 @@
 //!   * exact-out: stops short of target => amount_out == requested; whenever the request (not the target) limited the
 //!     step, a price two units less far delivers < requested (one unit: counted as above);
 //!   * fee_amount == ceil(amount_in*fee/(10^6-fee)) on steps that reach the target and on exact-out steps.
-//! Side observation (not a C02 violation, reported in the evidence as `note_panics`): `U256Muldiv::div` panics with an index
-//! out of bounds when the add-back step fires on the first quotient digit of a 4-word dividend (e.g. 2^192 / (2^128+1)); the
-//! shadow classifier predicts exactly the set of panicking divisions. compute_swap inherits the panic for some inputs.
+//! History: on the tree before commit 730ae7e `U256Muldiv::div` panicked (index out of bounds) whenever the Knuth-D add-back fired
+//! on the first quotient digit of a 4-word dividend (e.g. 2^192 / (2^128+1), reachable from compute_swap(1, 0, 2^64, 2^64+1, MIN,
+//! exact-in, a->b)). Part (iii) flags a panic of `div` on a non-zero divisor as a violation (its oracle is q*d+r == n for every
+//! non-zero divisor); at the swap-step level panics are counted (`swap_steps_panic`) but not constrained.
 //! compute_swap can reach the target in exact-out mode although the request is smaller than what the segment can deliver
 //! (get_next_sqrt_price rounds onto the target): then amount_out is the capped request; the oracle handles that
 //! (`max_by_rounding_onto_target`).
@@ -684,11 +686,10 @@ const U_NC: usize = 17;
 struct UStats {
     c: [u64; U_NC],
     viol: Vec<(String, String, Value)>,
-    panic_sample: Option<Value>,
 }
 impl Default for UStats {
     fn default() -> Self {
-        UStats { c: [0; U_NC], viol: vec![], panic_sample: None }
+        UStats { c: [0; U_NC], viol: vec![] }
     }
 }
 impl UStats {
@@ -700,9 +701,6 @@ impl UStats {
             if self.viol.len() < 6 {
                 self.viol.push(v);
             }
-        }
-        if self.panic_sample.is_none() {
-            self.panic_sample = o.panic_sample;
         }
         self
     }
@@ -722,7 +720,6 @@ fn wparse(v: &Value) -> Option<[u64; 4]> {
 
 enum DivRes {
     Ok,
-    PanicNonZero,
     ZeroPanics,
 }
 
@@ -749,7 +746,8 @@ fn u256_pair_ok(n: &[u64; 4], d: &[u64; 4], nb: &BigUint, db: &BigUint) -> Resul
         }
     } else {
         match r {
-            Err(_) => DivRes::PanicNonZero,
+            // the oracle of part (iii) is q*d + r == n for EVERY non-zero divisor: a panic is a wrong answer here
+            Err(p) => return Err(("div_panic".into(), format!("div panicked ('{}') for n={nb} d={db}, a non-zero divisor", panic_msg(&p)))),
             Ok((q, rem, q2, rem2)) => {
                 let (qb, rb) = (words_to_big(&q), words_to_big(&rem));
                 if &qb * db + &rb != *nb || rb >= *db {
@@ -873,6 +871,9 @@ fn run_u256(ctx: &Ctx, capped: &AtomicBool, words: &[u64]) -> UStats {
                 st.c[U_EVALS] += 1;
                 match u256_pair_ok(&n, &d, &bigs[i], &bigs[j]) {
                     Err((op, detail)) => {
+                        if op == "div_panic" {
+                            st.c[U_DIV_PANIC_NONZERO] += 1;
+                        }
                         if st.viol.len() < 2 {
                             st.viol.push((format!("u256:{op}:{:?}:{:?}", n, d), detail, json!({"kind":"u256_pair","n":wjson(&n),"d":wjson(&d)})));
                         }
@@ -881,12 +882,6 @@ fn run_u256(ctx: &Ctx, capped: &AtomicBool, words: &[u64]) -> UStats {
                         st.c[if fits { U_MUL_EXACT } else { U_MUL_OVERFLOW }] += 1;
                         match res {
                             DivRes::ZeroPanics => st.c[U_DIV_ZERO_PANICS] += 1,
-                            DivRes::PanicNonZero => {
-                                st.c[U_DIV_PANIC_NONZERO] += 1;
-                                if st.panic_sample.is_none() {
-                                    st.panic_sample = Some(json!({"dividend_words_le": wjson(&n), "divisor_words_le": wjson(&d)}));
-                                }
-                            }
                             DivRes::Ok => {
                                 st.c[U_DIV_OK] += 1;
                                 if (&bigs[i] % &bigs[j]).is_zero() {
@@ -1053,9 +1048,6 @@ pub fn run(ctx: &Ctx) -> Report {
     r.set("u256_div_ok", us.c[U_DIV_OK]);
     r.set("u256_div_by_zero_panics", us.c[U_DIV_ZERO_PANICS]);
     r.set("u256_div_panics_nonzero_divisor", us.c[U_DIV_PANIC_NONZERO]);
-    if let Some(s) = &us.panic_sample {
-        r.set("u256_div_panic_sample", s.clone());
-    }
     r.set("u256_div_paths", json!({"zero_dividend": us.c[U_PATH], "fewer_words": us.c[U_PATH+1], "u128": us.c[U_PATH+2], "single_word_divisor": us.c[U_PATH+3], "knuth_d": us.c[U_PATH+4]}));
     r.set("u256_mul_overflowing_unconstrained", us.c[U_MUL_OVERFLOW]);
     r.set("u256_mul_u256_pairs", mul_n);
@@ -1092,10 +1084,11 @@ pub fn run(ctx: &Ctx) -> Report {
     r.guard("u256_div_rem_nonzero", us.c[U_REM_NONZERO]);
     r.guard("u256_div_by_zero", us.c[U_DIV_ZERO_PANICS]);
     r.set("u256_add_back_on_carry_step", us.c[U_ADDBACK_TOP]);
-    if tot.c[PANIC] > 0 || us.c[U_DIV_PANIC_NONZERO] > 0 {
+    if tot.c[PANIC] > 0 {
         r.set(
             "note_panics",
-            "failed computations, not constrained by C02: U256Muldiv::div panics (index out of bounds in div_loop: `new_carry` reads dividend word 4) whenever              the Knuth-D add-back fires on the first quotient digit of a 4-word dividend; compute_swap inherits it through              get_next_sqrt_price_from_a_round_up / get_amount_delta_a (see swap_panic_sample, u256_div_panic_sample)",
+            "compute_swap panicked on some inputs (see swap_panic_kinds / swap_panic_sample): failed computations, which the statement does not \
+             constrain at the step level; a panic of U256Muldiv::div on a non-zero divisor IS a violation of part (iii)",
         );
     }
     r.assume("the budget net of fee of an exact-in step is floor(remaining*(10^6-fee)/10^6)");
